@@ -1,8 +1,7 @@
-"""C06 — contraction commutes with fusing; strategies agree (partial).
+"""C06 — contraction commutes with fusing; all contraction strategies agree.
 
-R06.1  the fused strategy unfuses exactly the result legs it fused itself
-R06.2  operands are aligned before fusing; the empty early return matches the main path
-R06.3  canonical sub-sector order shared by both operands (= R05.3)
+K1-K3  block-level semantics of tensordot in every mode by abstract evaluation (rules/sem_contract.py)
+R06.2  drop_misaligned_sectors keeps exactly the shared sub-sectors (abstract evaluation on the key-set domain)
 """
 
 from __future__ import annotations
@@ -10,120 +9,27 @@ from __future__ import annotations
 import ast
 
 from engine.loader import AnalysisError, src, walk_own
-from rules.c05_layout import check_canonical
 
 PID = "C06"
 EXPLANATION = (
-    "Structural analysis of the fused contraction strategy (_tensordot_via_fused) over its AST. (1) A single free leg is passed "
-    "to fuse() as a one-axis group, which the fuse plan leaves untouched, so a leg that was fused EARLIER keeps its sub-index "
-    "information: the decision to unfuse a result leg must therefore be data-dependent on the arity of the group this function "
-    "fused (len(left_axes) / len(right_axes)), read before those names are re-bound, and never on the mere presence of sub-index "
-    "information; the right leg must be unfused before the left one (positions shift). (2) Both fuse calls act on the operands "
-    "returned by drop_misaligned_sectors for the same axes, so both sides see the same sub-sectors; the early return for 'no "
-    "aligned sectors' builds the same indices and charge expression as the blockwise path. (3) The canonical sorted sub-sector "
-    "order and the accumulation in permutation order (shared with C05) are what make two sparse operands produce the same fused "
-    "layout. Equality of values between strategies is not decided."
+    "Abstract evaluation of the contraction strategies. The checker's evaluator interprets tensordot_abelian / tensordot_fermionic "
+    "and everything they call (drop_misaligned_sectors, fuse with both strategies, the blockwise kernel, unfuse) from the current "
+    "source on a bounded family of operand pairs whose block contents are shaped tokens: symmetries Z2 and U1 (Z2Z2, U1U1, Z4 in the "
+    "thorough tier), ranks 1-4, several direction patterns, identity and non-identity charges, 0-3 contracted axes (also in "
+    "reversed order), 0-2 extra free axes, operands whose present sectors DIFFER (full, every other sector, first sector missing), "
+    "operands that carry a leg fused beforehand (free on a, free on b, contracted on both), abelian and fermionic with pending signs. "
+    "A normalising token algebra makes the fused strategy transparent: fusing builds structured blocks {window -> source block}, "
+    "the product of two structured blocks multiplies exactly the pieces whose windows along the contracted axis coincide and is "
+    "marked `misaligned` when the two operands' fused layouts disagree, unfusing reads windows back. Every result block of every "
+    "strategy thereby normalises to a set of pair products tensordot(a_block, b_block, paired axes), which is compared with the "
+    "definition of a block-sparse contraction computed by the checker from the operands' sectors; fused and auto must further return "
+    "the same rank, indices (fused-ness of every leg included), charge, sectors and block shapes as blockwise, and for fermionic "
+    "operands the same effective sign on every pair product. Separately, drop_misaligned_sectors is evaluated on every pair of "
+    "contracted sub-sector sets over two axes. Numerical equality of values is reduced to the backend's tensordot on blocks "
+    "(assumed); the verdict covers exactly the enumerated cases."
 )
-ASSUMPTIONS = ["fuse() leaves single-axis groups untouched (validated under C05/R05.1)"]
-
-
-def _resolve(f, name, before_line=None):
-    defs = [a for a in walk_own(f.node) if isinstance(a, ast.Assign) and len(a.targets) == 1 and src(a.targets[0]) == name]
-    return defs
-
-
-def check_unfuse(prog, ctx):
-    rid = "R06.1"
-    f = prog.func("symmray.abelian_core:_tensordot_via_fused")
-    calls = [c for c in ast.walk(f.node) if isinstance(c, ast.Call) and (src(c.func).endswith(".unfuse") or src(c.func).endswith("unfuse_all"))]
-    ctx.need(calls, "_tensordot_via_fused: no unfuse call found (strategy rewritten: re-derive R06.1)")
-    # where are left_axes / right_axes re-bound (the scalar/vector/matrix table)?
-    rebinds = {}
-    for a in walk_own(f.node):
-        if isinstance(a, ast.Assign) and isinstance(a.targets[0], ast.Tuple):
-            for e in a.targets[0].elts:
-                if src(e) in ("left_axes", "right_axes"):
-                    rebinds[src(e)] = a.lineno
-    # map each unfuse call to the conditions that dominate it
-    positions = []
-    for c in calls:
-        tests = []
-        for n in ast.walk(f.node):
-            if isinstance(n, (ast.If,)) and any(x is c for b in n.body for x in ast.walk(b)):
-                tests.append(n.test)
-            if isinstance(n, (ast.For, ast.While)) and any(x is c for b in n.body for x in ast.walk(b)):
-                tests.append(n)
-        arity_dep = False
-        which = None
-        subinfo_only = False
-        for t in tests:
-            if isinstance(t, (ast.For, ast.While)):
-                continue
-            txt = src(t)
-            names = [n.id for n in ast.walk(t) if isinstance(n, ast.Name)]
-            for nm in names:
-                for d in _resolve(f, nm):
-                    v = src(d.value)
-                    for side in ("left_axes", "right_axes"):
-                        if f"len({side})" in v and d.lineno < rebinds.get(side, 10**9):
-                            arity_dep = True
-                            which = side
-            for side in ("left_axes", "right_axes"):
-                if f"len({side})" in txt and c.lineno < rebinds.get(side, 10**9):
-                    arity_dep = True
-                    which = side
-            if "subinfo" in txt:
-                subinfo_only = True
-        ctx.check(arity_dep, rid, f, c, src(c),
-                  "this unfuse is conditional on the arity of the group the function fused (len(left_axes) / len(right_axes), read "
-                  "before those names are re-bound), not merely on sub-index information being present")
-        positions.append((c.lineno, which, src(c.args[1]) if len(c.args) > 1 else None))
-    positions.sort()
-    if len(positions) == 2:
-        ok = positions[0][1] == "right_axes" and positions[1][1] == "left_axes"
-        ctx.check(ok, rid, f, f.node, f"order {positions}", "the right leg is unfused before the left one (so positions do not shift)")
-        ok = positions[0][2] in ("cf.ndim - 1", "-1") and positions[1][2] == "0"
-        ctx.check(ok, rid, f, f.node, f"axes {positions}", "the right group is the last result axis, the left group the first")
-    else:
-        ctx.notes.append(f"R06.1: {len(positions)} unfuse site(s); the left/right ordering obligations apply to the two-site form only")
-    # fuse calls use one group per side, in (left, contracted) / (contracted, right) order
-    fuses = [c for c in walk_own(f.node) if isinstance(c, ast.Call) and src(c.func) == "AbelianArray.fuse"]
-    sig = sorted(tuple(src(a) for a in c.args) for c in fuses)
-    ctx.check(sig == [("a", "left_axes", "axes_a"), ("b", "axes_b", "right_axes")], rid, f, f.node, str(sig),
-              "a is fused into (left, contracted), b into (contracted, right)")
-    ctx.check(all(any(k.arg == "expand_empty" and src(k.value) == "False" for k in c.keywords) for c in fuses), rid, f, f.node,
-              "expand_empty", "empty groups are dropped, not expanded (vector / scalar operands)")
-    ctx.minimum(rid, 3, "unfuse site(s), fuse signature")
-
-
-def check_align(prog, ctx):
-    rid = "R06.2"
-    f = prog.func("symmray.abelian_core:_tensordot_via_fused")
-    body = [s for s in f.node.body if not (isinstance(s, ast.Expr) and isinstance(s.value, ast.Constant))]
-    first = body[0]
-    ok = isinstance(first, ast.Assign) and src(first.targets[0]) == "(a, b)" and \
-        src(first.value) == "drop_misaligned_sectors(a, b, axes_a, axes_b)"
-    ctx.check(ok, rid, f, first, src(first), "the first statement re-binds a, b to their mutually aligned versions for the contracted axes")
-    fuses = [c for c in walk_own(f.node) if isinstance(c, ast.Call) and src(c.func) == "AbelianArray.fuse"]
-    ctx.check(all(c.lineno > first.lineno for c in fuses) and len(fuses) == 2, rid, f, f.node, "fuse after align",
-              "both fuse calls come after the alignment and act on the aligned a, b")
-    # early return
-    early = [n for n in walk_own(f.node) if isinstance(n, ast.If) and "blocks" in src(n.test) and isinstance(n.body[0], ast.Return)]
-    ctx.need(len(early) == 1, "_tensordot_via_fused: early return for no aligned sectors not found")
-    r = early[0].body[0].value
-    kws = {k.arg: src(k.value).replace(" ", "") for k in r.keywords}
-    bw = prog.func("symmray.abelian_core:_tensordot_blockwise")
-    rb = [n for n in walk_own(bw.node) if isinstance(n, ast.Return)][0].value
-    kb = {k.arg: src(k.value).replace(" ", "") for k in rb.keywords}
-    ctx.check(kws.get("charge") == kb.get("charge") == "a.symmetry.combine(a.charge,b.charge)", rid, f, early[0], str(kws.get("charge")),
-              "empty result has charge combine(a.charge, b.charge), like the blockwise path")
-    ctx.check(kws.get("indices") == "without(a.indices,axes_a)+without(b.indices,axes_b)" and kws.get("blocks") == "{}", rid, f, early[0],
-              str(kws.get("indices")), "empty result keeps the free indices of a then b and has no blocks")
-    newidx = [a for a in walk_own(bw.node) if isinstance(a, ast.Assign) and src(a.targets[0]) == "new_indices"]
-    ctx.check(bool(newidx) and src(newidx[0].value).replace(" ", "") == "list(without(a.indices,axes_a)+without(b.indices,axes_b))", rid,
-              bw, bw.node, "blockwise indices", "the blockwise path builds the same free indices")
-    check_alignment_semantics(prog, ctx)
-    ctx.minimum(rid, 6, "alignment, early return, abstract evaluation")
+ASSUMPTIONS = ["backend tensordot/transpose/reshape/concatenate/zeros behave as numpy's",
+               "the evaluator implements the Python semantics of the sub-language the library uses (anything else fails closed)"]
 
 
 def check_alignment_semantics(prog, ctx):
@@ -190,9 +96,15 @@ def check_alignment_semantics(prog, ctx):
 
 
 def run(prog, ctx):
-    ctx.rule("R06.1", "each unfuse of the fused strategy depends on the arity of the group it fused (read before re-binding), right before left")
-    ctx.rule("R06.2", "drop_misaligned_sectors precedes both fuse calls; the empty early return matches the blockwise indices/charge")
-    ctx.rule("R05.3", "canonical sorted sub-sector order; accumulation in perm order (shared with C05)")
-    check_unfuse(prog, ctx)
-    check_align(prog, ctx)
-    check_canonical(prog, ctx)
+    from rules.sem_contract import check_contraction
+
+    ctx.rule("K1", "blockwise: result sectors, pair products, charge and indices are those of the definition of a block-sparse contraction")
+    ctx.rule("K2", "fused / auto: the same pair products per result sector as the definition (so as blockwise), no product of misaligned "
+                   "fused layouts; same rank, indices (a leg fused beforehand stays fused), charge, sectors and block shapes as blockwise")
+    ctx.rule("K3", "fermionic operands: all strategies agree on the effective sign of every pair product")
+    ctx.rule("R06.2", "drop_misaligned_sectors keeps, on both operands, exactly the sectors whose contracted sub-sector is shared, and "
+                      "shrinks the charge tables accordingly")
+    n = check_contraction(prog, ctx)
+    check_alignment_semantics(prog, ctx)
+    ctx.extra_coverage = {"contraction_cases_evaluated": n}
+    ctx.minimum("K2", 1, "fused strategy")
